@@ -34,6 +34,9 @@ function verif_apply($res, $op) {
     elseif ($op == 'T0') { $res->html(''); }
     elseif ($op == 'H0') { $res->header('X-A', ''); }
     elseif ($op == 'C0') { $res->cookie('c', '', ['path' => '/']); }
+    elseif ($op == 'HC') { $res->header('Content-Type', 'text/plain'); }
+    elseif ($op == 'HL') { $res->header('Location', '/x'); }
+    elseif ($op == 'HK') { $res->header('Set-Cookie', 'z=1'); }
     else { verif_note('unknown op ' . $op); }
 }
 
